@@ -16,6 +16,25 @@ func registerGhosts(fx *FnCtx) {
 	for _, g := range ghostInits {
 		g(fx)
 	}
+	// hasExt(m, "E_X"), getExt(m, "E_X"): protobuf extension presence / value on message pointer m
+	fx.ghostFuncs["hasExt"] = func(ev *Evaluator, args []SVal) SVal {
+		fx.ufun("has_ext", []string{"Ref", "Int"}, "Bool")
+		id := "extid_" + sanitize(strings.Trim(args[1].v.t, "\""))
+		fx.s.global(id, fmt.Sprintf("(declare-fun %s () Int)", id))
+		return SVal{v: Val{t: fmt.Sprintf("(and (not (= %s nilref)) (has_ext %s %s))", args[0].v.t, args[0].v.t, id)}, typ: boolT}
+	}
+	fx.ghostFuncs["getExtRef"] = func(ev *Evaluator, args []SVal) SVal {
+		fx.ufun("get_ext", []string{"Ref", "Int"}, "Ref")
+		id := "extid_" + sanitize(strings.Trim(args[1].v.t, "\""))
+		fx.s.global(id, fmt.Sprintf("(declare-fun %s () Int)", id))
+		return SVal{v: Val{t: fmt.Sprintf("(get_ext %s %s)", args[0].v.t, id)}, sort: "Ref"}
+	}
+	// tripIDMatches(s): the NYCT trip id regular expression matches s (uninterpreted; the per-pattern axiom gives
+	// its consequences)
+	fx.ghostFuncs["tripIDMatches"] = func(ev *Evaluator, args []SVal) SVal {
+		fx.ufun("re_tripid_matches", []string{"String"}, "Bool")
+		return SVal{v: Val{t: "(re_tripid_matches " + args[0].v.t + ")"}, typ: boolT}
+	}
 	// feedsLeft(): how many more feeds the journal's source will yield (ghost; a source is finite)
 	fx.ghostFuncs["feedsLeft"] = func(ev *Evaluator, args []SVal) SVal {
 		return SVal{v: Val{t: ev.st.ghost["srcrem"]}, typ: intT}
